@@ -37,9 +37,9 @@ var checks = []Check{
 		Technique:   "exhaustive enumeration of traffic/fault histories on the real processors under a controlled scheduler",
 		Assumptions: append([]string{"counters are process-wide; each execution compares against a snapshot taken at its own start", "default schedule per operation"}, engineAssumptions...),
 		Jobs: []Job{
-			{Pkg: "proc/redis", Scenarios: []string{"C20/redis"}, Shards: 16, QuickS: 90, ThoroughS: 900},
-			{Pkg: "proc/tcp", Scenarios: []string{"C20/tcp"}, Shards: 16, QuickS: 60, ThoroughS: 600},
-			{Pkg: "proc/tcp", Scenarios: []string{"C05/stack-race"}, Race: true, Shards: 1, QuickS: 120, ThoroughS: 600},
+			{Pkg: "proc/redis", Scenarios: []string{"C20/redis"}, Shards: 16, QuickS: 90, ThoroughS: 240},
+			{Pkg: "proc/tcp", Scenarios: []string{"C20/tcp"}, Shards: 16, QuickS: 60, ThoroughS: 240},
+			{Pkg: "proc/tcp", Scenarios: []string{"C05/stack-race"}, Race: true, Shards: 1, QuickS: 120, ThoroughS: 240},
 		},
 	},
 	{
@@ -48,11 +48,11 @@ var checks = []Check{
 		Technique:   "explicit-state BFS over operation histories of the real store+controller under a controlled scheduler + preemption-bounded schedule exploration",
 		Assumptions: append([]string{"recording processors (each owns a real host.Set) stand in for the real TCP/Redis processors", "the store's handlers are driven through injected wrappers instead of a live gRPC stream"}, engineAssumptions...),
 		Jobs: []Job{
-			{Pkg: "controller", Scenarios: []string{"C08/histories"}, Shards: 16, QuickS: 100, ThoroughS: 900},
-			{Pkg: "controller", Scenarios: []string{"C08/stack-race"}, Race: true, Shards: 1, QuickS: 120, ThoroughS: 600},
-			{Pkg: "controller", Scenarios: []string{"C08/race", "C08/streams"}, Shards: 16, QuickS: 60, ThoroughS: 600},
-			{Pkg: "controller", Scenarios: []string{"C08/slow-controller"}, Shards: 16, QuickS: 60, ThoroughS: 600},
-			{Pkg: "config", Scenarios: []string{"C08/discovery"}, Shards: 16, QuickS: 60, ThoroughS: 600},
+			{Pkg: "controller", Scenarios: []string{"C08/histories"}, Shards: 16, QuickS: 100, ThoroughS: 240},
+			{Pkg: "controller", Scenarios: []string{"C08/stack-race"}, Race: true, Shards: 1, QuickS: 120, ThoroughS: 240},
+			{Pkg: "controller", Scenarios: []string{"C08/race", "C08/streams"}, Shards: 16, QuickS: 60, ThoroughS: 240},
+			{Pkg: "controller", Scenarios: []string{"C08/slow-controller"}, Shards: 16, QuickS: 60, ThoroughS: 240},
+			{Pkg: "config", Scenarios: []string{"C08/discovery"}, Shards: 16, QuickS: 60, ThoroughS: 240},
 		},
 	},
 	{
@@ -61,10 +61,10 @@ var checks = []Check{
 		Technique:   "preemption/delay-bounded stateless schedule exploration of the real goroutines with environment-fault choices",
 		Assumptions: append([]string{"scripted stream with gRPC's send/recv failure coupling (a failed Send breaks the stream, Recv then fails); real gRPC streams are outside the model", "one caller thread (the dependency stream's hook is the only caller in the product)"}, engineAssumptions...),
 		Jobs: []Job{
-			{Pkg: "config", Scenarios: []string{"C16/short"}, Shards: 16, QuickS: 80, ThoroughS: 600},
-			{Pkg: "config", Scenarios: []string{"C16/phases"}, Shards: 16, QuickS: 60, ThoroughS: 300},
-			{Pkg: "config", Scenarios: []string{"C16/many", "C16/smallqueue"}, Shards: 16, QuickS: 80, ThoroughS: 600},
-			{Pkg: "config", Scenarios: []string{"C16/dependency-hook"}, Shards: 16, QuickS: 60, ThoroughS: 600},
+			{Pkg: "config", Scenarios: []string{"C16/short"}, Shards: 16, QuickS: 80, ThoroughS: 240},
+			{Pkg: "config", Scenarios: []string{"C16/phases"}, Shards: 16, QuickS: 60, ThoroughS: 240},
+			{Pkg: "config", Scenarios: []string{"C16/many", "C16/smallqueue"}, Shards: 16, QuickS: 80, ThoroughS: 240},
+			{Pkg: "config", Scenarios: []string{"C16/dependency-hook"}, Shards: 16, QuickS: 60, ThoroughS: 240},
 		},
 	},
 	{
@@ -73,10 +73,10 @@ var checks = []Check{
 		Technique:   "preemption-bounded schedule exploration + exhaustive history enumeration on the real TCP processor under a controlled scheduler",
 		Assumptions: engineAssumptions,
 		Jobs: []Job{
-			{Pkg: "proc/internal/lb", Scenarios: []string{"C06/round-robin", "C06/random-leastconn"}, Shards: 4, QuickS: 60, ThoroughS: 300},
-			{Pkg: "proc/tcp", Scenarios: []string{"C06/histories"}, Shards: 16, QuickS: 90, ThoroughS: 900},
-			{Pkg: "proc/tcp", Scenarios: []string{"C05/stack-race"}, Race: true, Shards: 1, QuickS: 120, ThoroughS: 600},
-			{Pkg: "proc/tcp", Scenarios: []string{"C06/race"}, Shards: 16, QuickS: 60, ThoroughS: 600},
+			{Pkg: "proc/internal/lb", Scenarios: []string{"C06/round-robin", "C06/random-leastconn"}, Shards: 4, QuickS: 60, ThoroughS: 240},
+			{Pkg: "proc/tcp", Scenarios: []string{"C06/histories"}, Shards: 16, QuickS: 90, ThoroughS: 240},
+			{Pkg: "proc/tcp", Scenarios: []string{"C05/stack-race"}, Race: true, Shards: 1, QuickS: 120, ThoroughS: 240},
+			{Pkg: "proc/tcp", Scenarios: []string{"C06/race"}, Shards: 16, QuickS: 60, ThoroughS: 240},
 		},
 	},
 	{
@@ -85,9 +85,9 @@ var checks = []Check{
 		Technique:   "preemption/delay-bounded stateless schedule exploration of the real relay goroutines with input enumeration",
 		Assumptions: append([]string{"vnet models orderly close, half-close and reset; kernel behaviours such as RST on close with unread data or partial writes are outside the model"}, engineAssumptions...),
 		Jobs: []Job{
-			{Pkg: "proc/tcp", Scenarios: []string{"C05/relay"}, Shards: 16, QuickS: 90, ThoroughS: 900},
-			{Pkg: "proc/tcp", Scenarios: []string{"C05/stack-race"}, Race: true, Shards: 1, QuickS: 120, ThoroughS: 600},
-			{Pkg: "proc/tcp", Scenarios: []string{"C05/two-connections", "C05/paced"}, Shards: 8, QuickS: 60, ThoroughS: 300},
+			{Pkg: "proc/tcp", Scenarios: []string{"C05/relay"}, Shards: 16, QuickS: 90, ThoroughS: 240},
+			{Pkg: "proc/tcp", Scenarios: []string{"C05/stack-race"}, Race: true, Shards: 1, QuickS: 120, ThoroughS: 240},
+			{Pkg: "proc/tcp", Scenarios: []string{"C05/two-connections", "C05/paced"}, Shards: 8, QuickS: 60, ThoroughS: 240},
 		},
 	},
 	{
@@ -96,12 +96,12 @@ var checks = []Check{
 		Technique:   "preemption/delay-bounded stateless schedule exploration of the real goroutines under a controlled scheduler with virtual time and network",
 		Assumptions: engineAssumptions,
 		Jobs: []Job{
-			{Pkg: "proc", Scenarios: []string{"C09/listener"}, Shards: 16, QuickS: 80, ThoroughS: 600},
-			{Pkg: "proc", Scenarios: []string{"C09/limit"}, Shards: 8, QuickS: 60, ThoroughS: 300},
-			{Pkg: "proc/redis", Scenarios: []string{"C09/redis-stop"}, Shards: 16, QuickS: 80, ThoroughS: 600},
-			{Pkg: "proc/redis", Scenarios: []string{"C09/redis-collect"}, Shards: 16, QuickS: 80, ThoroughS: 600},
-			{Pkg: "proc/tcp", Scenarios: []string{"C09/tcp-stop"}, Shards: 16, QuickS: 60, ThoroughS: 600},
-			{Pkg: "controller", Scenarios: []string{"C09/controller"}, Shards: 16, QuickS: 60, ThoroughS: 600},
+			{Pkg: "proc", Scenarios: []string{"C09/listener"}, Shards: 16, QuickS: 80, ThoroughS: 240},
+			{Pkg: "proc", Scenarios: []string{"C09/limit"}, Shards: 8, QuickS: 60, ThoroughS: 240},
+			{Pkg: "proc/redis", Scenarios: []string{"C09/redis-stop"}, Shards: 16, QuickS: 80, ThoroughS: 240},
+			{Pkg: "proc/redis", Scenarios: []string{"C09/redis-collect"}, Shards: 16, QuickS: 80, ThoroughS: 240},
+			{Pkg: "proc/tcp", Scenarios: []string{"C09/tcp-stop"}, Shards: 16, QuickS: 60, ThoroughS: 240},
+			{Pkg: "controller", Scenarios: []string{"C09/controller"}, Shards: 16, QuickS: 60, ThoroughS: 240},
 		},
 	},
 	{
@@ -111,9 +111,9 @@ var checks = []Check{
 		Rule:        "distinct inputs (byte strings, structured requests, backend reply texts/shapes), each evaluated once per enumerated environment (map order)",
 		Assumptions: append([]string{"memory is measured as runtime.MemStats.Sys inside the isolated child", "alphabet chosen from the RESP type bytes, digits, CR, LF, a letter and space"}, engineAssumptions...),
 		Jobs: []Job{
-			{Pkg: "proc/redis", Scenarios: []string{"C11/inputs"}, Shards: 16, QuickS: 150, ThoroughS: 900},
-			{Pkg: "proc/redis", Scenarios: []string{"C11/backend"}, Shards: 8, QuickS: 120, ThoroughS: 300},
-			{Pkg: "proc/redis", Scenarios: []string{"C11/end-to-end"}, Shards: 4, QuickS: 60, ThoroughS: 300},
+			{Pkg: "proc/redis", Scenarios: []string{"C11/inputs"}, Shards: 16, QuickS: 150, ThoroughS: 240},
+			{Pkg: "proc/redis", Scenarios: []string{"C11/backend"}, Shards: 8, QuickS: 120, ThoroughS: 240},
+			{Pkg: "proc/redis", Scenarios: []string{"C11/end-to-end"}, Shards: 4, QuickS: 60, ThoroughS: 240},
 		},
 	},
 	{
@@ -122,11 +122,11 @@ var checks = []Check{
 		Technique:   "exhaustive enumeration of migration/failover histories + preemption/delay-bounded schedule exploration on the real proxy stack",
 		Assumptions: append([]string{"mini Redis Cluster redirection rules written from redis-server 5.0 getNodeByQuery; ownership changes are atomic cluster-wide (no gossip lag); replicas share their master's data", "errors are tolerated after a failover whose old master is down until the next periodic refresh round completed (the proxy cannot know earlier; deliberately weaker than the statement)"}, engineAssumptions...),
 		Jobs: []Job{
-			{Pkg: "proc/redis", Scenarios: []string{"C04/histories"}, Shards: 16, QuickS: 90, ThoroughS: 900},
-			{Pkg: "proc/redis", Scenarios: []string{"C02/stack-race"}, Race: true, Shards: 1, QuickS: 120, ThoroughS: 600},
-			{Pkg: "proc/redis", Scenarios: []string{"C04/asking"}, Shards: 16, QuickS: 90, ThoroughS: 600},
-			{Pkg: "proc/redis", Scenarios: []string{"C04/pipelined-redirect"}, Shards: 16, QuickS: 60, ThoroughS: 600},
-			{Pkg: "proc/redis", Scenarios: []string{"C04/failover-in-flight"}, Shards: 16, QuickS: 60, ThoroughS: 600},
+			{Pkg: "proc/redis", Scenarios: []string{"C04/histories"}, Shards: 16, QuickS: 90, ThoroughS: 240},
+			{Pkg: "proc/redis", Scenarios: []string{"C02/stack-race"}, Race: true, Shards: 1, QuickS: 120, ThoroughS: 240},
+			{Pkg: "proc/redis", Scenarios: []string{"C04/asking"}, Shards: 16, QuickS: 90, ThoroughS: 240},
+			{Pkg: "proc/redis", Scenarios: []string{"C04/pipelined-redirect"}, Shards: 16, QuickS: 60, ThoroughS: 240},
+			{Pkg: "proc/redis", Scenarios: []string{"C04/failover-in-flight"}, Shards: 16, QuickS: 60, ThoroughS: 240},
 		},
 	},
 	{
@@ -135,11 +135,11 @@ var checks = []Check{
 		Technique:   "exhaustive enumeration of fault/topology histories on the real proxy stack under a controlled scheduler with virtual time",
 		Assumptions: append([]string{"mini Redis Cluster (ownership changes are atomic cluster-wide; a restarted node keeps its data)", "default schedule per operation; the random seed-host choice rotates fairly"}, engineAssumptions...),
 		Jobs: []Job{
-			{Pkg: "proc/redis", Scenarios: []string{"C07/histories"}, Shards: 16, QuickS: 90, ThoroughS: 900},
-			{Pkg: "proc/redis", Scenarios: []string{"C02/upstream-redirect"}, Shards: 16, QuickS: 150, ThoroughS: 900},
-			{Pkg: "proc/redis", Scenarios: []string{"C02/stack-race"}, Race: true, Shards: 1, QuickS: 120, ThoroughS: 600},
-			{Pkg: "proc/redis", Scenarios: []string{"C07/concurrent-loss"}, Shards: 16, QuickS: 60, ThoroughS: 600},
-			{Pkg: "proc/redis", Scenarios: []string{"C07/refresh-in-flight"}, Shards: 16, QuickS: 60, ThoroughS: 600},
+			{Pkg: "proc/redis", Scenarios: []string{"C07/histories"}, Shards: 16, QuickS: 90, ThoroughS: 240},
+			{Pkg: "proc/redis", Scenarios: []string{"C02/upstream-redirect"}, Shards: 16, QuickS: 150, ThoroughS: 240},
+			{Pkg: "proc/redis", Scenarios: []string{"C02/stack-race"}, Race: true, Shards: 1, QuickS: 120, ThoroughS: 240},
+			{Pkg: "proc/redis", Scenarios: []string{"C07/concurrent-loss"}, Shards: 16, QuickS: 60, ThoroughS: 240},
+			{Pkg: "proc/redis", Scenarios: []string{"C07/refresh-in-flight"}, Shards: 16, QuickS: 60, ThoroughS: 240},
 		},
 	},
 	{
@@ -148,12 +148,12 @@ var checks = []Check{
 		Technique:   "preemption/delay-bounded stateless schedule exploration + exhaustive input/fragmentation enumeration on the real proxy stack",
 		Assumptions: engineAssumptions,
 		Jobs: []Job{
-			{Pkg: "proc/redis", Scenarios: []string{"C01/fragments"}, Shards: 16, QuickS: 70, ThoroughS: 600},
-			{Pkg: "proc/redis", Scenarios: []string{"C02/client"}, Shards: 16, QuickS: 80, ThoroughS: 600},
-			{Pkg: "proc/redis", Scenarios: []string{"C02/stack-race"}, Race: true, Shards: 1, QuickS: 120, ThoroughS: 600},
-			{Pkg: "proc/redis", Scenarios: []string{"C02/split-race"}, Race: true, Shards: 1, QuickS: 60, ThoroughS: 300},
-			{Pkg: "proc/redis", Scenarios: []string{"C01/schedules"}, Shards: 16, QuickS: 70, ThoroughS: 600},
-			{Pkg: "proc/redis", Scenarios: []string{"C01/two-conns", "C01/backend-fifo", "C01/long-pipeline", "C01/odd-names", "C01/cold-start"}, Shards: 16, QuickS: 60, ThoroughS: 600},
+			{Pkg: "proc/redis", Scenarios: []string{"C01/fragments"}, Shards: 16, QuickS: 70, ThoroughS: 240},
+			{Pkg: "proc/redis", Scenarios: []string{"C02/client"}, Shards: 16, QuickS: 80, ThoroughS: 240},
+			{Pkg: "proc/redis", Scenarios: []string{"C02/stack-race"}, Race: true, Shards: 1, QuickS: 120, ThoroughS: 240},
+			{Pkg: "proc/redis", Scenarios: []string{"C02/split-race"}, Race: true, Shards: 1, QuickS: 60, ThoroughS: 240},
+			{Pkg: "proc/redis", Scenarios: []string{"C01/schedules"}, Shards: 16, QuickS: 70, ThoroughS: 240},
+			{Pkg: "proc/redis", Scenarios: []string{"C01/two-conns", "C01/backend-fifo", "C01/long-pipeline", "C01/odd-names", "C01/cold-start"}, Shards: 16, QuickS: 60, ThoroughS: 240},
 		},
 	},
 	{
@@ -162,14 +162,14 @@ var checks = []Check{
 		Technique:   "preemption/delay-bounded stateless schedule exploration of the real goroutines under a controlled scheduler with fault injection at every network operation",
 		Assumptions: engineAssumptions,
 		Jobs: []Job{
-			{Pkg: "proc/redis", Scenarios: []string{"C02/split", "C02/banned-pipeline", "C02/banned-pipeline-faults"}, Shards: 8, QuickS: 60, ThoroughS: 300},
-			{Pkg: "proc/redis", Scenarios: []string{"C02/split-race"}, Race: true, Shards: 1, QuickS: 60, ThoroughS: 300},
-			{Pkg: "proc/redis", Scenarios: []string{"C02/stack-race"}, Race: true, Shards: 1, QuickS: 120, ThoroughS: 600},
-			{Pkg: "proc/redis", Scenarios: []string{"C02/client"}, Shards: 16, QuickS: 80, ThoroughS: 600},
-			{Pkg: "proc/redis", Scenarios: []string{"C02/upstream"}, Shards: 16, QuickS: 80, ThoroughS: 600},
-			{Pkg: "proc/redis", Scenarios: []string{"C02/upstream-redirect"}, Shards: 16, QuickS: 150, ThoroughS: 900},
-			{Pkg: "proc/redis", Scenarios: []string{"C09/redis-stop"}, Shards: 16, QuickS: 80, ThoroughS: 600},
-			{Pkg: "proc/redis", Scenarios: []string{"C02/stack"}, Shards: 16, QuickS: 80, ThoroughS: 600},
+			{Pkg: "proc/redis", Scenarios: []string{"C02/split", "C02/banned-pipeline", "C02/banned-pipeline-faults"}, Shards: 8, QuickS: 60, ThoroughS: 240},
+			{Pkg: "proc/redis", Scenarios: []string{"C02/split-race"}, Race: true, Shards: 1, QuickS: 60, ThoroughS: 240},
+			{Pkg: "proc/redis", Scenarios: []string{"C02/stack-race"}, Race: true, Shards: 1, QuickS: 120, ThoroughS: 240},
+			{Pkg: "proc/redis", Scenarios: []string{"C02/client"}, Shards: 16, QuickS: 80, ThoroughS: 240},
+			{Pkg: "proc/redis", Scenarios: []string{"C02/upstream"}, Shards: 16, QuickS: 80, ThoroughS: 240},
+			{Pkg: "proc/redis", Scenarios: []string{"C02/upstream-redirect"}, Shards: 16, QuickS: 150, ThoroughS: 240},
+			{Pkg: "proc/redis", Scenarios: []string{"C09/redis-stop"}, Shards: 16, QuickS: 80, ThoroughS: 240},
+			{Pkg: "proc/redis", Scenarios: []string{"C02/stack"}, Shards: 16, QuickS: 80, ThoroughS: 240},
 		},
 	},
 	{
@@ -178,12 +178,12 @@ var checks = []Check{
 		Technique:   "bounded-exhaustive input enumeration + exhaustive history enumeration on the real proxy stack under a controlled scheduler",
 		Assumptions: append([]string{"github.com/golang/snappy called directly as independent decompression oracle", "mini Redis Cluster stores values byte for byte"}, engineAssumptions...),
 		Jobs: []Job{
-			{Pkg: "proc/redis", Scenarios: []string{"C13/filter"}, Shards: 8, QuickS: 90, ThoroughS: 300},
-			{Pkg: "proc/redis", Scenarios: []string{"C02/stack-race"}, Race: true, Shards: 1, QuickS: 120, ThoroughS: 600},
-			{Pkg: "proc/redis", Scenarios: []string{"C13/histories"}, Shards: 16, QuickS: 90, ThoroughS: 600},
-			{Pkg: "proc/redis", Scenarios: []string{"C13/concurrent"}, Shards: 16, QuickS: 60, ThoroughS: 600},
-			{Pkg: "proc/redis", Scenarios: []string{"C13/switch-concurrent"}, Shards: 16, QuickS: 60, ThoroughS: 600},
-			{Pkg: "proc/redis", Scenarios: []string{"C13/filter-race"}, Race: true, Shards: 1, QuickS: 60, ThoroughS: 300},
+			{Pkg: "proc/redis", Scenarios: []string{"C13/filter"}, Shards: 8, QuickS: 90, ThoroughS: 240},
+			{Pkg: "proc/redis", Scenarios: []string{"C02/stack-race"}, Race: true, Shards: 1, QuickS: 120, ThoroughS: 240},
+			{Pkg: "proc/redis", Scenarios: []string{"C13/histories"}, Shards: 16, QuickS: 90, ThoroughS: 240},
+			{Pkg: "proc/redis", Scenarios: []string{"C13/concurrent"}, Shards: 16, QuickS: 60, ThoroughS: 240},
+			{Pkg: "proc/redis", Scenarios: []string{"C13/switch-concurrent"}, Shards: 16, QuickS: 60, ThoroughS: 240},
+			{Pkg: "proc/redis", Scenarios: []string{"C13/filter-race"}, Race: true, Shards: 1, QuickS: 60, ThoroughS: 240},
 		},
 	},
 	{
@@ -191,9 +191,9 @@ var checks = []Check{
 		LevelText:   "every combination of scripted per-node cursor chains (17 shapes per node, 1-3 nodes, cursors up to 2^48-1) iterated from cursor 0 through the real proxy; MATCH/COUNT/TYPE pass-through; every client-supplied cursor class; lossless cursor composition for all power-of-two boundaries; 0 nodes; a slot refresh between any two calls; one two-node iteration under all schedules within bounds (with scheduling points after releasing operations)",
 		Technique:   "exhaustive enumeration of node cursor histories on the real proxy stack under a controlled scheduler",
 		Assumptions: append([]string{"scripted SCAN answers of the mini cluster (well-formed replies; malformed ones belong to C11)"}, engineAssumptions...),
-		Jobs: []Job{{Pkg: "proc/redis", Scenarios: []string{"C18/scan"}, Shards: 16, QuickS: 90, ThoroughS: 300},
-			{Pkg: "proc/redis", Scenarios: []string{"C02/stack-race"}, Race: true, Shards: 1, QuickS: 120, ThoroughS: 600},
-			{Pkg: "proc/redis", Scenarios: []string{"C18/scan-schedules"}, Shards: 16, QuickS: 60, ThoroughS: 600}},
+		Jobs: []Job{{Pkg: "proc/redis", Scenarios: []string{"C18/scan"}, Shards: 16, QuickS: 90, ThoroughS: 240},
+			{Pkg: "proc/redis", Scenarios: []string{"C02/stack-race"}, Race: true, Shards: 1, QuickS: 120, ThoroughS: 240},
+			{Pkg: "proc/redis", Scenarios: []string{"C18/scan-schedules"}, Shards: 16, QuickS: 60, ThoroughS: 240}},
 	},
 	{
 		ID: "C14", Title: "only supported commands reach backends; writes only reach masters", Level: "exploration",
@@ -202,10 +202,10 @@ var checks = []Check{
 		Rule:        "distinct = (name, letter case, argument count, strategy, clock step) combinations issued",
 		Assumptions: append([]string{"Redis 5.0 command table with write flags embedded in the harness (written from the redis-server 5.0 command table)", "mini Redis Cluster node logs"}, engineAssumptions...),
 		Jobs: []Job{
-			{Pkg: "proc/redis", Scenarios: []string{"C14/commands"}, Shards: 12, QuickS: 120, ThoroughS: 300},
-			{Pkg: "proc/redis", Scenarios: []string{"C02/stack-race"}, Race: true, Shards: 1, QuickS: 120, ThoroughS: 600},
+			{Pkg: "proc/redis", Scenarios: []string{"C14/commands"}, Shards: 12, QuickS: 120, ThoroughS: 240},
+			{Pkg: "proc/redis", Scenarios: []string{"C02/stack-race"}, Race: true, Shards: 1, QuickS: 120, ThoroughS: 240},
 			{Pkg: "proc/redis", Scenarios: []string{"C14/topology"}, Shards: 1, QuickS: 60, ThoroughS: 120},
-			{Pkg: "proc/redis", Scenarios: []string{"C14/strategy-update"}, Shards: 16, QuickS: 60, ThoroughS: 300},
+			{Pkg: "proc/redis", Scenarios: []string{"C14/strategy-update"}, Shards: 16, QuickS: 60, ThoroughS: 240},
 		},
 	},
 	{
@@ -214,11 +214,11 @@ var checks = []Check{
 		Technique:   "explicit-state BFS over operation histories of the real proxy stack under a controlled scheduler (default schedule), reference-model comparison in every state",
 		Assumptions: append([]string{"mini Redis Cluster + single-server reference interpreter (/verif/sim/cluster) written from the Redis 5.0 documentation; the same interpreter is used on both sides so the comparison checks routing, splitting and relaying", "default schedule only (the quantifier of C03 is programs x inputs x layouts)"}, engineAssumptions...),
 		Jobs: []Job{
-			{Pkg: "proc/redis", Scenarios: []string{"C03/programs"}, Shards: 16, QuickS: 100, ThoroughS: 900},
-			{Pkg: "proc/redis", Scenarios: []string{"C02/stack-race"}, Race: true, Shards: 1, QuickS: 120, ThoroughS: 600},
-			{Pkg: "proc/redis", Scenarios: []string{"C03/values"}, Shards: 16, QuickS: 60, ThoroughS: 300},
-			{Pkg: "proc/redis", Scenarios: []string{"C03/refresh-concurrent"}, Shards: 16, QuickS: 60, ThoroughS: 600},
-			{Pkg: "proc/redis", Scenarios: []string{"C01/cold-start"}, Shards: 16, QuickS: 60, ThoroughS: 600},
+			{Pkg: "proc/redis", Scenarios: []string{"C03/programs"}, Shards: 16, QuickS: 100, ThoroughS: 240},
+			{Pkg: "proc/redis", Scenarios: []string{"C02/stack-race"}, Race: true, Shards: 1, QuickS: 120, ThoroughS: 240},
+			{Pkg: "proc/redis", Scenarios: []string{"C03/values"}, Shards: 16, QuickS: 60, ThoroughS: 240},
+			{Pkg: "proc/redis", Scenarios: []string{"C03/refresh-concurrent"}, Shards: 16, QuickS: 60, ThoroughS: 240},
+			{Pkg: "proc/redis", Scenarios: []string{"C01/cold-start"}, Shards: 16, QuickS: 60, ThoroughS: 240},
 		},
 	},
 	{
@@ -228,8 +228,8 @@ var checks = []Check{
 		Rule:        "each evaluation is a distinct frame or a distinct (request sequence, drop point) history",
 		Assumptions: []string{"Go compiler and runtime", "kernel unix stream sockets (abstract namespace)", "the protocol is request/reply, so outcomes do not depend on goroutine timing; a 30 s read deadline only detects a hung hand-over"},
 		Jobs: []Job{
-			{Pkg: "cmd/samaritan/hotrestart", Scenarios: []string{"C17/frames"}, Shards: 12, QuickS: 90, ThoroughS: 300},
-			{Pkg: "cmd/samaritan/hotrestart", Scenarios: []string{"C17/handover"}, Shards: 8, QuickS: 90, ThoroughS: 600},
+			{Pkg: "cmd/samaritan/hotrestart", Scenarios: []string{"C17/frames"}, Shards: 12, QuickS: 90, ThoroughS: 240},
+			{Pkg: "cmd/samaritan/hotrestart", Scenarios: []string{"C17/handover"}, Shards: 8, QuickS: 90, ThoroughS: 240},
 		},
 	},
 	{
@@ -238,11 +238,11 @@ var checks = []Check{
 		Technique:   "explicit-state search over operation histories on the real objects + preemption-bounded schedule exploration",
 		Assumptions: engineAssumptions,
 		Jobs: []Job{
-			{Pkg: "proc/redis/hotkey", Scenarios: []string{"C19/counter", "C19/insert"}, Shards: 1, QuickS: 60, ThoroughS: 400},
-			{Pkg: "proc/redis/hotkey", Scenarios: []string{"C19/collector"}, Shards: 16, QuickS: 60, ThoroughS: 400},
-			{Pkg: "proc/redis/hotkey", Scenarios: []string{"C19/concurrent"}, Shards: 8, QuickS: 60, ThoroughS: 400},
+			{Pkg: "proc/redis/hotkey", Scenarios: []string{"C19/counter", "C19/insert"}, Shards: 1, QuickS: 60, ThoroughS: 240},
+			{Pkg: "proc/redis/hotkey", Scenarios: []string{"C19/collector"}, Shards: 16, QuickS: 60, ThoroughS: 240},
+			{Pkg: "proc/redis/hotkey", Scenarios: []string{"C19/concurrent"}, Shards: 8, QuickS: 60, ThoroughS: 240},
 			{Pkg: "proc/redis", Scenarios: []string{"C19/hotkey-command"}, Shards: 7, QuickS: 60, ThoroughS: 120},
-			{Pkg: "proc/redis/hotkey", Scenarios: []string{"C19/collector-race"}, Race: true, Shards: 1, QuickS: 60, ThoroughS: 300},
+			{Pkg: "proc/redis/hotkey", Scenarios: []string{"C19/collector-race"}, Race: true, Shards: 1, QuickS: 60, ThoroughS: 240},
 		},
 	},
 	{
@@ -250,7 +250,7 @@ var checks = []Check{
 		LevelText:   "bounded-exhaustive enumeration: every value of the RESP grammar up to depth 2 over boundary texts/integers, every concatenation of small messages under all chunkings (<= 14 bytes) or every placement of <= 2/3 cuts, six reader buffer sizes, against an independent codec; integer fast paths against strconv on every string over a 7-letter alphabet up to length 7/8 and every i in [-70000,70000]; 300 repetitions of one null/empty/nested message followed by other values through one decoder",
 		Technique:   "bounded-exhaustive input and chunking enumeration against an independent reference codec",
 		Assumptions: []string{"Go compiler and runtime", "independent RESP codec /verif/sim/resp and strconv as references", "boundary sets chosen from the thresholds in the code (32, 512, 4096, 8192, 32768, 10 digits)"},
-		Jobs:        []Job{{Pkg: "proc/redis", Scenarios: []string{"C10/codec"}, Shards: 16, QuickS: 120, ThoroughS: 900}},
+		Jobs:        []Job{{Pkg: "proc/redis", Scenarios: []string{"C10/codec"}, Shards: 16, QuickS: 120, ThoroughS: 240}},
 	},
 	{
 		ID: "C12", Title: "key-to-slot mapping equals the Redis Cluster specification", Level: "exploration",
@@ -259,8 +259,8 @@ var checks = []Check{
 		Rule:        "each evaluation is a distinct key; all are counted (the 2^24 three-byte keys cover every CRC state x next byte)",
 		Assumptions: []string{"Go compiler and runtime", "reference CRC16/XMODEM and hash-tag rule written from the Redis Cluster specification", "slot read through upstream.chooseHost over an identity slot table"},
 		Jobs: []Job{
-			{Pkg: "proc/redis", Scenarios: []string{"C12/slots"}, Shards: 1, QuickS: 120, ThoroughS: 600},
-			{Pkg: "proc/redis", Scenarios: []string{"C12/concurrent"}, Shards: 4, QuickS: 60, ThoroughS: 300},
+			{Pkg: "proc/redis", Scenarios: []string{"C12/slots"}, Shards: 1, QuickS: 120, ThoroughS: 240},
+			{Pkg: "proc/redis", Scenarios: []string{"C12/concurrent"}, Shards: 4, QuickS: 60, ThoroughS: 240},
 		},
 	},
 	{
@@ -270,11 +270,11 @@ var checks = []Check{
 		Rule:        "states = canonical dumps of the real host.Set (three maps, cache, per-object flag/latch) reached by operation sequences; every state non-trivial (differs from all others); schedules = distinct choice sequences",
 		Assumptions: engineAssumptions,
 		Jobs: []Job{
-			{Pkg: "host", Scenarios: []string{"C15/history"}, Shards: 1, QuickS: 60, ThoroughS: 400},
-			{Pkg: "host", Scenarios: []string{"C15/concurrent"}, Shards: 8, QuickS: 60, ThoroughS: 400},
-			{Pkg: "host", Scenarios: []string{"C15/set-race"}, Race: true, Shards: 1, QuickS: 60, ThoroughS: 300},
-			{Pkg: "proc/internal/hc", Scenarios: []string{"C15/hysteresis"}, Shards: 1, QuickS: 60, ThoroughS: 400},
-			{Pkg: "proc/internal/hc", Scenarios: []string{"C15/monitor-loop"}, Shards: 8, QuickS: 60, ThoroughS: 400},
+			{Pkg: "host", Scenarios: []string{"C15/history"}, Shards: 1, QuickS: 60, ThoroughS: 240},
+			{Pkg: "host", Scenarios: []string{"C15/concurrent"}, Shards: 8, QuickS: 60, ThoroughS: 240},
+			{Pkg: "host", Scenarios: []string{"C15/set-race"}, Race: true, Shards: 1, QuickS: 60, ThoroughS: 240},
+			{Pkg: "proc/internal/hc", Scenarios: []string{"C15/hysteresis"}, Shards: 1, QuickS: 60, ThoroughS: 240},
+			{Pkg: "proc/internal/hc", Scenarios: []string{"C15/monitor-loop"}, Shards: 8, QuickS: 60, ThoroughS: 240},
 		},
 	},
 	{
